@@ -77,6 +77,8 @@ fn runtime() -> Runtime<NoCtx> {
         fn tri(a: u8, b: u8, c: u8) -> Val<Tri> { Val(Tri([a, b, c])) }
         fn tri_get(t: Val<Tri>, i: u8) -> u8 { t.0.0[(i % 3) as usize] }
 
+        fn emit_str(s: roto::RotoString) { ev(format!("emit_str {:?}", &*s)); }
+        fn pure_str(s: roto::RotoString) -> roto::RotoString { ev(format!("pure_str {:?}", &*s)); s }
         fn emit_bool(x: bool) { ev(format!("emit_bool {:#x}", x as u64)); }
         fn emit_u8(x: u8) { ev(format!("emit_u8 {:#x}", x)); }
         fn emit_u16(x: u16) { ev(format!("emit_u16 {:#x}", x)); }
